@@ -109,6 +109,12 @@ def parse(items, i=0, stop=()):
         if m and not re.search(r"&&|\|\|", re.sub(r'"[^"]*"|\'[^\']*\'|`[^`]*`', "", ln)):
             body.append(Node("assign", name=m.group(1), value=m.group(2)))
             continue
+        m = re.match(r"^while (.*); do$", ln)
+        if m:
+            b, i = parse(items, i, stop=("done",))
+            i += 1
+            body.append(Node("while", cond=m.group(1), body=b))
+            continue
         m = re.match(r"^for (\w+) in (.*); do$", ln)
         if m:
             b, i = parse(items, i, stop=("done",))
@@ -222,6 +228,7 @@ class Path:
 
 
 class Engine:
+    WHILE_UNROLL = 3
     JOB_TOOLS = ("python", "cmsRun")
     BUILD_TOOLS = ("cmake", "make", "scram", "mkedanlzr")
 
@@ -354,7 +361,24 @@ class Engine:
         parts = []
         i = 0
         rx = re.compile(r"\$\{(\w+)\}|\$(\w+|#|@)")
+        arx = re.compile(r"\$\(\(([^()]*)\)\)")
         while i < len(w):
+            am = arx.match(w, i)
+            if am:
+                # arithmetic expansion over integer-valued variables and + - * (concrete values only)
+                expr = am.group(1)
+
+                def val(mm):
+                    v = conc(p.vars.get(mm.group(1), ("0",)))
+                    if v is None or not re.fullmatch(r"-?\d+", v.strip() or "0"):
+                        raise ShUnsupported(f"arithmetic on a non-numeric / symbolic variable in {w!r}")
+                    return v.strip() or "0"
+                flat = re.sub(r"\$?([A-Za-z_]\w*)", val, expr)
+                if not re.fullmatch(r"[\d\s+*-]+", flat):
+                    raise ShUnsupported(f"arithmetic expression {expr!r}")
+                parts.append(str(eval(flat)))      # digits, blanks, + - * only
+                i = am.end()
+                continue
             m = rx.match(w, i)
             if m:
                 name = m.group(1) or m.group(2)
@@ -383,6 +407,19 @@ class Engine:
     # ---- conditions
     def cond(self, p, c):
         c = c.strip()
+        # a list of bracket tests joined by && / || (left to right, short-circuit, equal precedence as in bash)
+        pieces = re.split(r"\s+(&&|\|\|)\s+(?=\[)", c)
+        if len(pieces) > 1 and all(re.match(r"^\[\[? .* \]\]?$", x) for x in pieces[::2]):
+            cur = self.cond(p, pieces[0])
+            for op, nxt in zip(pieces[1::2], pieces[2::2]):
+                new = []
+                for q, val in cur:
+                    if (op == "&&" and not val) or (op == "||" and val):
+                        new.append((q, val))
+                    else:
+                        new += self.cond(q, nxt)
+                cur = new
+            return cur
         m = re.match(r"^\[\[? (.*) \]\]?$", c)
         if not m:
             # a command as condition: it runs with errexit suspended; the branch is taken when it succeeds
@@ -508,7 +545,7 @@ class Engine:
     def step(self, p, st):
         if st.kind == "assign":
             v = st.value
-            if "$(" in v or "`" in v:
+            if ("$(" in v and "$((" not in v) or "`" in v or re.search(r"\$\((?!\()", v):
                 known = {("DIR", '"$( cd "$( dirname "${BASH_SOURCE[0]}" )" >/dev/null 2>&1 && pwd )"'): ("/DIR",),
                          ("local", "`pwd`"): (p.cwd,)}
                 if (st.name, v) not in known:
@@ -596,6 +633,27 @@ class Engine:
             for q in done:
                 q.vars.pop("__break", None)
             return paths + done
+        if st.kind == "while":
+            # bounded unrolling: a path on which the condition can still hold after WHILE_UNROLL iterations is dropped and the
+            # run is marked truncated (reported inconclusive, never passed)
+            paths, done = [p], []
+            for k in range(self.WHILE_UNROLL + 1):
+                nxt = []
+                for q in paths:
+                    for r, val in self.cond(q, st.cond):
+                        if not val:
+                            done.append(r)
+                        elif k == self.WHILE_UNROLL:
+                            self.truncated = True
+                        else:
+                            nxt += self.run_block([r], st.body)
+                done += [q for q in nxt if q.vars.get("__break") or q.exit is not None]
+                paths = [q for q in nxt if not q.vars.get("__break") and q.exit is None]
+                if not paths:
+                    break
+            for q in done:
+                q.vars.pop("__break", None)
+            return done
         if st.kind == "andor":
             return self.andor(p, st.text)
         return self.simple(p, st.text)
